@@ -205,6 +205,41 @@ func runQuery(ctx context.Context, reg ociregistry.Interface, q Query) (o Obs) {
 	return o
 }
 
+// heldListings obtains every listing of the query list first and consumes them only afterwards, in the
+// order obtained: listings are values of their own; obtaining another one (of the same repository, for
+// another subject or start point) does not change what an earlier one delivers. It returns, per listing
+// query, what the held iterator delivered.
+func heldListings(ctx context.Context, reg ociregistry.Interface, queries []Query) map[string]string {
+	type held struct {
+		q    Query
+		strs ociregistry.Seq[string]
+		ds   ociregistry.Seq[ociregistry.Descriptor]
+	}
+	var hs []held
+	for _, q := range queries {
+		switch q.K {
+		case "Tags":
+			hs = append(hs, held{q: q, strs: reg.Tags(ctx, q.Repo, q.After)})
+		case "Repositories":
+			hs = append(hs, held{q: q, strs: reg.Repositories(ctx, q.After)})
+		case "Referrers":
+			hs = append(hs, held{q: q, ds: reg.Referrers(ctx, q.Repo, ociregistry.Digest(q.Dig), "")})
+		}
+	}
+	out := map[string]string{}
+	for _, h := range hs {
+		var items []string
+		var err error
+		if h.strs != nil {
+			items, err, _ = consumeSeq(h.strs, 0, func(s string) string { return s })
+		} else {
+			items, err, _ = consumeSeq(h.ds, 0, descText)
+		}
+		out[h.q.String()] = fmt.Sprintf("%v err=%v", items, err != nil)
+	}
+	return out
+}
+
 // consumeAgain drains an iterator value, then runs it again stopping after the first item, then
 // drains it a third time: an iterator value is a description of a listing, not a cursor, so every
 // run starts from the same place (nothing else touches the registry in between).
